@@ -16,14 +16,20 @@ os.environ.setdefault("GOMAXPROCS", "2")  # the harness is sequential per worker
 CONFIG = {
     "rule": "case = one Python program; every code object the real compiler emits for it (module + all nested) is dumped and fed to the proved verifier, "
             "and every distinct (code object, pc, stack depth, stack kinds, block stack) the VM is in under hook H2 must be a state the certificate predicts; "
-            "non-trivial (tag nt) = generated program with at least one function and one block construct (loop / try / with) - all of families nest, feat, rand; "
+            "non-trivial (tag nt) = generated program with at least one function and one block construct (loop / try / with) - all of families nest, pos, feat, rand; "
+            "family pos: every leaf statement (all simple statement kinds, break/continue/return/raise/yield guarded and unguarded) in every slot of every compound statement "
+            "(if/elif/else, while/for body and else, try body/handlers/else/finally, with, nested def and class), slot paths of depth 0..2 exhaustively in a function body and in a loop in a function body "
+            "(= depth 3), depth 0..1 at module level, seeded samples of depth 3..4 (thorough: depth 3 exhaustively, samples of depth 4..5); the expected verdict comes from the spec "
+            "placementError (Placement.lean): ok, or nocompile:E:SyntaxError for the placements Python 3.4 rejects (tag synerr); "
+            "family asm: instruction streams for the real Instructions.Assemble/StackDepth, V = the harness's own check that every emitted jump lands on its label's byte offset, R = bytes/depth compared with the Lean model of the assembler; "
             "repository .py files (family F) are explored but not counted; distinct = distinct program text",
     "trusted_base": [
         "Lean 4.33.0 kernel; axioms allowed: propext, Classical.choice, Quot.sound (audited per theorem on every run)",
         "lean/GPy/C12/Model.lean: hand transliteration of the stack/block behaviour of every do_<OPCODE> of vm/eval.go and of RunFrame's unwinding loop (abstract machine over value kinds); "
         "tied to /repo by dynamic conformance under hook H2 (every executed instruction's real pc/depth/kinds/blocks must be a predicted state) - not by proof",
         "lean/GPy/C12/Generated.lean: opcode numbers, HAVE_ARGUMENT and compile/instructions.go's opcodeStackEffect/nArgs, REGENERATED from the working tree by extract/opcodes (go/ast) on every run",
-        "lean/GPy/C12/Spec.lean: Reach / SafeAt / WellFormed - my statement of 'well-formed and stack-safe on every path'",
+        "lean/GPy/C12/Spec.lean: Reach / SafeAt / WellFormed - my statement of 'well-formed and stack-safe on every path'; lean/GPy/C12/Placement.lean: which placements of break/continue/return/yield Python 3.4 rejects (written from the language reference / CPython 3.4 compile.c)",
+        "lean/GPy/C12/Assemble.lean: hand transliteration of compile/instructions.go Pass/Assemble/Resolve/Size/Output and stackDepthWalk/StackDepth (uint32 wrap explicit); tied to /repo by family asm (byte string and stack depth of the real functions on generated streams, incl. streams over 64 KiB that need EXTENDED_ARG and several passes)",
         "lean/GPy/C12/Verify.lean + Conform.lean: the verifier whose soundness is Props.verify_sound, and the (unproved, small) text parser of the dump lines and the observation matcher",
         "harness/c12.go (dump of py.Code fields, H2 observation, de-duplication), checks/common.py",
         "type-assertion panics inside do_<OPCODE> (v.(*py.List), code.(*py.Code)) and py-level behaviour of operands are outside C12; int32 wrap of jump arithmetic is not modelled (operands < 2^31 enforced by the decoder)",
@@ -40,7 +46,7 @@ CONFIG = {
     "dist_tokens": 2,
     # a real hang is cut by the harness's own 25 s watchdog; this only has to exceed a whole shard's run time
     "case_timeout": 3600.0,
-    "workers": 8 if "thorough" in sys.argv else 4,
+    "workers": 8 if "thorough" in sys.argv else 6,
     "group": lambda r: " ".join(r["input"].split(" ")[:2]) + " " + r["impl"][:40],
 }
 
